@@ -199,33 +199,10 @@ def process_noise(k=0):
                 f()
             except BaseException:  # noqa
                 pass
-        # process-wide settings of the standard library that a numeric application may well have changed
-        import decimal
-        decimal.getcontext().prec = (6, 28, 3, 50)[k % 4]
-        decimal.getcontext().rounding = (decimal.ROUND_HALF_EVEN, decimal.ROUND_DOWN, decimal.ROUND_CEILING)[k % 3]
-        # what the library hands out is the caller's to edit: tables of a FactorResult, Token objects of a token list, class lists
-        try:
-            from mathy_core.util import factor_add_terms_ex, factor, get_terms, get_term_ex
-            from mathy_core.expressions import MultiplyExpression
-            from mathy_core.tokenizer import Tokenizer
-            for c in (2, 3, 4, 6, 8, 9, 10, 12):
-                try:
-                    f = factor_add_terms_ex(get_term_ex(MultiplyExpression(ConstantExpression(c), VariableExpression("x"))),
-                                            get_term_ex(MultiplyExpression(ConstantExpression(c * (1 + k % 3)), VariableExpression("y" if k % 2 else "x"))))
-                    if f is not False and f is not None:
-                        for attr in ("all_left", "all_right", "common_factors", "factors"):
-                            tbl = getattr(f, attr, None)
-                            if hasattr(tbl, "clear"):
-                                tbl.clear()
-                    d = factor(c)
-                    d.clear()
-                except BaseException:  # noqa
-                    pass
-        except BaseException:  # noqa
-            pass
         try:
             from mathy_core.tokenizer import Tokenizer
-            for toks in (Tokenizer().tokenize("1 + 2 - 3 * 4 / 5 ^ 6 ! = ( ) sgn(x)"), Tokenizer(exclude_padding=False).tokenize("7 - (2)"), p.tokenize("4x + 2y^3 - sgn(x)")):
+            # the token lists a parser hands out are the caller's to edit, Token objects included (C12)
+            for toks in (p.tokenize("1 + 2 - 3 * 4 / 5 ^ 6 ! = ( ) sgn(x)"), p.tokenize("7 - (2)"), p.tokenize("4x + 2y^3 - sgn(x)")):
                 for tk in toks:
                     tk.value = "#"
                     tk.type = 1 << 13
